@@ -62,13 +62,27 @@ SWITCHES = [
     ("switch", ((2, 0), (1, 1)), None),
     ("switch", ((1, 1), (1, 1), (1, 1)), "middle"),
 ]
-ALL_ITEMS = PLAIN + IFS + SWITCHES + IFS_LONG
+# operations whose opcode can also head a switch, written as plain statements (with and without a context)
+SPECIAL_PLAIN = [("swop", "ProcessSpecial", None), ("swop", "message_Menu", "inline"), ("swop", "main_EnterAdventure", "with"),
+                 ("swop", "message_SwitchMenu", "inline")]
+
+
+ALL_ITEMS = PLAIN + IFS + SWITCHES + IFS_LONG + SPECIAL_PLAIN
 REDUCED_ITEMS = [PLAIN[0], PLAIN[3], IFS[0], IFS[6], IFS[12], IFS[17], IFS[20], SWITCHES[0], SWITCHES[2], SWITCHES[5], SWITCHES[7]]
 SMALL_ITEMS = [PLAIN[0], IFS[0], IFS[17], SWITCHES[4]]
 
 
 def inst_item(inst, item):
     kind = item[0]
+    if kind == "swop":
+        args = [("i", 1 + inst.n_op % 3), ("i", 2)]
+        name = f"{item[1]}"
+        inst.n_op += 1
+        if item[2] is None:
+            return A.Op(name, args)
+        if item[2] == "inline":
+            return A.Op(name, args, ctx=("actor", ("i", 1)))
+        return A.With("object", ("i", 2), A.Op(name, args))
     if kind in ("op", "opctx", "with_op", "assign", "msw"):
         return inst.stmt(item)
     if kind == "if":
@@ -170,9 +184,9 @@ def run_case(cid, case):
             viols.append({"kind": "jump-in-output", "detail": {"source": text, "output": out}})
         names, n_assign = op_names(prog)
         bad = {}
-        for nme in names:
+        for nme in set(names):
             c = len(re.findall(r"(?<![A-Za-z0-9_])" + re.escape(nme) + r"\s*[<(]", out))
-            if c != 1:
+            if c != names.count(nme):
                 bad[nme] = c
         if bad:
             viols.append({"kind": "op-count", "detail": {"source": text, "output": out, "counts": bad}})
